@@ -217,3 +217,174 @@ func boxModelCases(r *Rng, n int, cf *CoqFile, st *Stats) {
 	}
 	cf.AddCases("box_cases", "bool * bool * bool * list bdecl * list bdecl", "check_box", items)
 }
+
+// ---------------------------------------------------------------------------
+// border-radius tracker correspondence (RadiusTracker.v)
+
+var radiusFam = boxFam{"border-radius", "border-radius", [4]string{"border-top-left-radius", "border-top-right-radius", "border-bottom-right-radius", "border-bottom-left-radius"}, false, true, false, nil}
+
+const slashTok = -1 // pseudo index: the "/" of border-radius (TOther 0)
+
+func (d mBDecl) coqR() string {
+	key := "KShort"
+	switch {
+	case d.key == "short":
+	case strings.HasPrefix(d.key, "o"):
+		key = "KOther " + d.key[1:]
+	default:
+		key = "KSide " + d.key
+	}
+	var ts []string
+	for _, t := range d.toks {
+		if t == slashTok {
+			ts = append(ts, "TOther 0")
+		} else {
+			ts = append(ts, boxToks[t].coq)
+		}
+	}
+	return fmt.Sprintf("mkB (%s) [%s] %s", key, strings.Join(ts, ";"), CBool(d.imp))
+}
+
+func (d mBDecl) cssR() string {
+	if strings.HasPrefix(d.key, "o") {
+		return d.css(radiusFam)
+	}
+	name := radiusFam.short
+	if d.key != "short" {
+		name = radiusFam.sides[d.key[0]-'0']
+	}
+	var ts []string
+	for _, t := range d.toks {
+		if t == slashTok {
+			ts = append(ts, "/")
+		} else {
+			ts = append(ts, boxToks[t].text)
+		}
+	}
+	val := strings.Join(ts, " ")
+	if d.imp {
+		val += " !important"
+	}
+	return name + ":" + val
+}
+
+func radiusModelCases(r *Rng, n int, cf *CoqFile, st *Stats) {
+	var items []string
+	// numeric tokens only (no auto for radii), mostly safe
+	safeToks := []int{0, 3, 6, 7, 8, 9, 10, 11, 4}
+	allToks := []int{0, 1, 3, 4, 6, 7, 8, 9, 10, 11, 12, 14, 15, 16, 17, 18, 21, 23}
+	pick := func() int {
+		if r.Chance(70) {
+			return safeToks[r.Intn(len(safeToks))]
+		}
+		return allToks[r.Intn(len(allToks))]
+	}
+	for i := 0; i < n; i++ {
+		var decls []mBDecl
+		for k := r.Range(1, 7); k > 0; k-- {
+			d := mBDecl{imp: r.Chance(12)}
+			switch x := r.Intn(10); {
+			case x < 3:
+				d.key = "short"
+				for j := r.Range(1, 4); j > 0; j-- {
+					d.toks = append(d.toks, pick())
+				}
+				if r.Chance(35) {
+					d.toks = append(d.toks, slashTok)
+					for j := r.Range(1, 4); j > 0; j-- {
+						d.toks = append(d.toks, pick())
+					}
+					if r.Chance(5) {
+						d.toks = append(d.toks, slashTok, pick())
+					}
+				}
+			case x < 9:
+				d.key = fmt.Sprint(r.Intn(4))
+				d.toks = []int{pick()}
+				if r.Chance(35) {
+					d.toks = append(d.toks, pick())
+				}
+				if r.Chance(20) && len(d.toks) == 2 {
+					d.toks[1] = d.toks[0]
+				}
+			default:
+				d.key = []string{"o1", "o2"}[r.Intn(2)]
+			}
+			decls = append(decls, d)
+		}
+		var parts, coqIn []string
+		for _, d := range decls {
+			parts = append(parts, d.cssR())
+			coqIn = append(coqIn, d.coqR())
+		}
+		src := "a{" + strings.Join(parts, ";") + "}"
+		res := api.Transform(src, api.TransformOptions{Loader: api.LoaderCSS, MinifySyntax: true, MinifyWhitespace: true, LogLevel: api.LogLevelSilent})
+		if len(res.Errors) > 0 {
+			failC12(st, "radius-transform-error", src, res.Errors[0].Text, "no error")
+			continue
+		}
+		out := strings.TrimSpace(string(res.Code))
+		var coqOut []string
+		ok := true
+		rs := parseSheet(out)
+		if len(rs) > 1 {
+			ok = false
+		}
+		for _, rule := range rs {
+			for _, b := range rule.body {
+				if b.decl == nil {
+					ok = false
+					continue
+				}
+				// re-read with "/" as its own token
+				d := mBDecl{imp: b.decl.important}
+				switch b.decl.name {
+				case "color":
+					d.key = "o1"
+				case "order":
+					d.key = "o2"
+				case "border-radius":
+					d.key = "short"
+				default:
+					found := false
+					for k, s := range radiusFam.sides {
+						if s == b.decl.name {
+							d.key = fmt.Sprint(k)
+							found = true
+						}
+					}
+					if !found {
+						ok = false
+					}
+				}
+				if !strings.HasPrefix(d.key, "o") {
+					for _, c := range noWS(b.decl.value) {
+						if c.t.kind == tDelim && c.t.text == "/" {
+							d.toks = append(d.toks, slashTok)
+							continue
+						}
+						txt := cvText(c)
+						idx := -1
+						for k, t := range boxToks {
+							if strings.Join(strings.Fields(t.text), "") == strings.Join(strings.Fields(txt), "") {
+								idx = k
+							}
+						}
+						if idx < 0 {
+							ok = false
+							idx = 0
+						}
+						d.toks = append(d.toks, idx)
+					}
+				}
+				coqOut = append(coqOut, d.coqR())
+			}
+		}
+		if !ok {
+			coqOut = []string{"mkB (KOther 99) [] false"}
+		}
+		items = append(items, fmt.Sprintf("([%s],\n  [%s])", strings.Join(coqIn, ";"), strings.Join(coqOut, ";")))
+		st.Note("radius-model", src, out != src)
+	}
+	cf.AddCases("radius_cases", "list bdecl * list bdecl", "check_radius", items)
+}
